@@ -19,7 +19,7 @@ from sa import core
 from sa.selftest import edits as E
 
 VERIF = core.VERIF
-ALL = ['C01', 'C02', 'C03', 'C04', 'C05', 'C06', 'C07', 'C08', 'C09', 'C10', 'C11', 'C12', 'C13', 'C14', 'C15', 'C16', 'C17', 'C18', 'C20']
+ALL = ['C01', 'C02', 'C03', 'C04', 'C05', 'C06', 'C07', 'C08', 'C09', 'C10', 'C11', 'C12', 'C13', 'C14', 'C15', 'C16', 'C17', 'C18', 'C19', 'C20']
 
 OFF_D = 'rtamt/semantics/stl/discrete_time/offline/ast_visitor.py'
 OFF_DENSE = 'rtamt/semantics/stl/dense_time/offline/ast_visitor.py'
@@ -29,7 +29,7 @@ AR_D = 'rtamt/semantics/arithmetic/discrete_time/online/'
 AR_DENSE = 'rtamt/semantics/arithmetic/dense_time/online/'
 
 FLOORS = {'C01': 25, 'C02': 20, 'C03': 8, 'C04': 15, 'C05': 8, 'C06': 5, 'C07': 8, 'C08': 6, 'C09': 4, 'C10': 10, 'C11': 4, 'C12': 3, 'C13': 4,
-          'C14': 8, 'C15': 4, 'C16': 10, 'C17': 20, 'C18': 6, 'C20': 6}
+          'C14': 8, 'C15': 4, 'C16': 10, 'C17': 20, 'C18': 6, 'C19': 6, 'C20': 6}
 
 
 def _parse(repo, rel):
